@@ -24,7 +24,7 @@ GOMOD_REST = ("\ngo 1.23\n\nrequire (\n\tgithub.com/anishathalye/porcupine v1.3.
 
 def src_layout(kind):
     """(directory, package name)"""
-    return {"ordinary": ("src", "src"), "main": ("cmd/tool", "main"), "name-ne-dir": ("src-dir", "srcpkg")}[kind]
+    return {"ordinary": ("src", "src"), "main": ("cmd/tool", "main"), "name-ne-dir": ("src-dir", "srcpkg"), "modroot": (".", "src")}[kind]
 
 
 def build_module(ctx, case, ifaces, template=None, extra_cfg=None, extra_files=None):
@@ -32,7 +32,7 @@ def build_module(ctx, case, ifaces, template=None, extra_cfg=None, extra_files=N
     sdir, spkg = src_layout(case.get("srckind", "ordinary"))
     files = gosrc.support_files()
     extra = "func main() {}\n" if spkg == "main" else ""
-    files[sdir + "/ifaces.go"] = gosrc.render_package(spkg, ifaces, extra)
+    files[os.path.normpath(sdir + "/ifaces.go")] = gosrc.render_package(spkg, ifaces, extra)
     pl = case["placement"]
     cfg = {"template": template or case["template"], "formatter": case["formatter"], "filename": "mock_{{.InterfaceName}}.go"}
     if pl == "inpkg":
@@ -69,7 +69,10 @@ def build_module(ctx, case, ifaces, template=None, extra_cfg=None, extra_files=N
             cfg["template-data"] = td
     if extra_cfg:
         cfg.update(extra_cfg)
-    srcpath = MOD + "/" + sdir
+    srcpath = MOD if sdir == "." else MOD + "/" + sdir
+    if case.get("dir_spelling") and pl in IN_PACKAGE:
+        # the source package's own directory written as a relative path ("." for the module root) instead of the default {{.InterfaceDir}}
+        cfg["dir"] = sdir if case["dir_spelling"] == "relative" else "./" + sdir + "/"
     tdn = case.get("td_by_name") or {}
     cfg["packages"] = {srcpath: {"interfaces": {i["name"]: ({"config": {"template-data": tdn[i["name"]]}} if tdn.get(i["name"]) else per_iface) for i in ifaces}}}
     if case.get("td_pkg_cfg"):     # arbitrary settings at package level
